@@ -1,6 +1,6 @@
 (* C04 — packets are read from a byte stream exactly at APDU boundaries.  Statements only. *)
 From Zvt Require Import Base Length LengthProps Cp437 Encoding Codec Transport TransportProps.
-From Zvt Require Import Client ClientLog.
+From Zvt Require Import Client ClientLog EnumProps CanonClass CanonRoundtrip.
 Open Scope N_scope.
 
 (* the length header the writer emits and the reader's interpretation of it agree for every body
@@ -51,6 +51,16 @@ Theorem C04_client_reader_is_stream_reader : forall c t, settled c ->
   end.
 Proof. exact read_packet_t_settled. Qed.
 
+(* end to end with C01 and C15: the bytes write_packet produces for any value of the class, followed by ANYTHING, are read by
+   read_packet as exactly one packet — that variant, that content — and everything behind it stays in the stream *)
+Theorem C04_write_then_read : forall fuel vs k nm c v b rest,
+  nodup_cf (map v_cf vs) = true -> nth_error vs k = Some (nm, c) ->
+  c_class c < 256 -> c_instr c < 256 -> (depth_fields (c_fields c) <= S fuel)%nat ->
+  canon_cmd c v = Some b ->
+  read_packet fuel vs (b ++ rest) = Some (Ok (N.of_nat k, v), rest).
+Proof. exact stream_roundtrip. Qed.
+
+Print Assumptions C04_write_then_read.
 Print Assumptions C04_client_reader_is_stream_reader.
 Print Assumptions C04_header_agreement.
 Print Assumptions C04_read_frames_concat.
